@@ -190,6 +190,20 @@ func runMixedCases(c *Ctx, n int, p Profile, kinds []string, nops int, after fun
 }
 
 func init() {
+	props["C12"] = propRun{
+		rule: "declarations with rich initial values (strings with surrounding blanks, quotes, backslashes, control, non-ASCII and invalid bytes; numeric limits; nil/empty/filled slices, maps, pointers), optional parse, write with each of the 8 IniOptions, read into a fresh parser over the same declaration, apply defaults, compare every written option; distinct per written text; plus mixed ini operations for the model tie",
+		run: func(c *Ctx) {
+			checkC12(c, budget(c.Tier, 400, 40000))
+			runMixedCases(c, budget(c.Tier, 150, 15000), defaultProfile, []string{"parse", "iniparse", "iniwrite"}, 3, func(cr *CaseResult) { oracleNoPanic(c, cr) })
+		}}
+	props["C14"] = propRun{
+		rule: "(a) noisy / faulty / arbitrary-byte INI texts (incl. lines around the 4096-byte buffer) on generated declarations; (b) pairs: the same entries with and without blank lines, comments, surrounding blanks, CRLF; (c) one syntactically faulty line inserted at a known physical line; distinct per text",
+		run: func(c *Ctx) {
+			checkC14(c, budget(c.Tier, 600, 60000))
+		}}
+}
+
+func init() {
 	props["DBG2"] = propRun{rule: "debug", run: func(c *Ctx) {
 		p := defaultProfile
 		kinds := strings.Split(os.Getenv("VERIF_KINDS"), ",")
